@@ -710,3 +710,56 @@ func (pc *pCtx) spareEscapesV(self ssa.Value, refs *[]ssa.Instruction, level []*
 	}
 	return false
 }
+
+// p8Twins: the string flavour and the byte flavour of a text helper (functions of the same name in plugins/strings and
+// plugins/bytes) classify characters with the same functions of package unicode - the flavours agree on the same text
+// only if a character is a letter, a digit, upper case ... for both.
+func (pc *pCtx) p8Twins(only string) {
+	sp, bp := roPath+"/plugins/strings", roPath+"/plugins/bytes"
+	if pc.kc.w.ByPath[sp] == nil || pc.kc.w.ByPath[bp] == nil {
+		return
+	}
+	classifiers := func(fn *ssa.Function) map[string]bool {
+		out := map[string]bool{}
+		for _, f := range closureTree(fn) {
+			for _, b := range f.Blocks {
+				for _, ins := range b.Instrs {
+					call, ok := ins.(ssa.CallInstruction)
+					if !ok {
+						continue
+					}
+					if cf := call.Common().StaticCallee(); cf != nil && cf.Pkg != nil && cf.Pkg.Pkg.Path() == "unicode" {
+						out[cf.Name()] = true
+					}
+				}
+			}
+		}
+		return out
+	}
+	sf, bf := pc.kc.w.allFuncs(sp), pc.kc.w.allFuncs(bp)
+	for _, k := range sortedKeys(sf) {
+		a, b := sf[k], bf[k]
+		if a == nil || b == nil || k == "init" || a.Parent() != nil || b.Parent() != nil || a.Blocks == nil || b.Blocks == nil {
+			continue
+		}
+		if strings.HasSuffix(pc.kc.w.Prog.Fset.Position(a.Pos()).Filename, "_test.go") || strings.HasSuffix(pc.kc.w.Prog.Fset.Position(b.Pos()).Filename, "_test.go") {
+			continue
+		}
+		if only != "" && !strings.Contains(k, only) {
+			continue
+		}
+		ca, cb := classifiers(a), classifiers(b)
+		if len(ca) == 0 && len(cb) == 0 {
+			continue
+		}
+		same := len(ca) == len(cb)
+		for n := range ca {
+			if !cb[n] {
+				same = false
+			}
+		}
+		pc.add([]string{"C18"}, fmt.Sprintf("P8/plugins/strings+bytes.%s/the-two-flavours-classify-characters-alike", k),
+			"the string flavour and the byte flavour of a text helper use the same character classes of package unicode", same,
+			fmt.Sprintf("strings.%s uses unicode.{%s}, bytes.%s uses unicode.{%s}", k, strings.Join(sortedStrs(ca), ","), k, strings.Join(sortedStrs(cb), ",")), pc.pos(a.Pos()))
+	}
+}
